@@ -12,6 +12,7 @@ Core Lean only.
 import StarsimModel.Model.TimePar
 import StarsimModel.Generated.HazardExprs
 import StarsimModel.Generated.TimeDecls
+import StarsimModel.Generated.StepClocks
 
 namespace StarsimModel.Hazard
 open StarsimModel.TimePar
@@ -188,5 +189,33 @@ def poolProb (field : String) (t : TP Rat) (trans acq : Rat) : Except Err (Val R
   match poolBeta field t with
   | .error e => .error e
   | .ok b => .ok (b.map (fun x => x * trans * acq))
+
+/-! ### Round 4: the step counter that schedules / triggers recovery; the step length in years of a timeline -/
+
+/-- the value of a step counter when the MODULE executes its step `k` (module step length `m`, sim step length `s`, same time unit):
+    the module's own index is `k`; the sim's index at that moment is `⌈k·m/s⌉` (the loop runs the module steps of the
+    interval `((i-1)·s, i·s]` while `sim.ti = i`; measured on the real loop by the correspondence) -/
+def clockAt (clock : String) (m s : Rat) (k : Nat) : Except Err Int :=
+  if clock = "module" then .ok (k : Int)
+  else if clock = "sim" then (if s = 0 then .error .zeroDiv else .ok (Rat.ceil ((k : Rat) * m / s)))
+  else .error .type
+
+/-- `set_prognoses` at step 0 stores `ti_recovered = <sched clock> + d` (d = duration in MODULE steps, already converted);
+    `step_state` at module step `k` recovers when `ti_recovered <= <recover clock>` -/
+def recoveredAt (sched recover : String) (m s d : Rat) (k : Nat) : Except Err Bool :=
+  match clockAt sched m s 0, clockAt recover m s k with
+  | .ok t0, .ok tk => .ok (decide ((t0 : Rat) + d ≤ (tk : Rat)))
+  | .error e, _ => .error e
+  | _, .error e => .error e
+
+/-- `Time.init`: `dt_year` of a timeline `(unit, dt)`; `kind` is the regenerated form of the expression for a numeric / calendar axis:
+    "ratio" = `time_ratio(unit, dt, 'year', 1.0)`, "dt" = the raw step count -/
+def dtYearOf (kind : String) (unit : UnitT) (dt : Option Rat) : Except Err Rat :=
+  if kind = "ratio" then timeRatio unit dt (some "year") (some 1)
+  else if kind = "dt" then (match dt with | some d => .ok d | none => .error .type)
+  else .error .type
+
+def dtYear (numeric : Bool) (unit : UnitT) (dt : Option Rat) : Except Err Rat :=
+  dtYearOf (if numeric then Gen.dtYearNumeric else Gen.dtYearDate) unit dt
 
 end StarsimModel.Hazard
